@@ -417,8 +417,12 @@ def run_path(I, c, cfg, decisions):
             if c.allow_raise and I.exc_matches(exc, tuple(c.allow_raise)):
                 pass
             else:
-                records.append(("no-unexpected-exception", f"{type(exc).__name__ if isinstance(exc, BaseException) else I.type_name(exc)}:{I.py_str(exc)[:80]}",
-                                list(ctx.pc), z3.BoolVal(False)))
+                ename = type(exc).__name__ if isinstance(exc, BaseException) else I.type_name(exc)
+                relaxed = None
+                if ("raise:" + ename) in c.known:
+                    regs = [_to_goal(reg(old)) for _, reg in c.known["raise:" + ename]]
+                    relaxed = (c.known["raise:" + ename][0][0], z3.Or(*regs))
+                records.append(("no-unexpected-exception", f"{ename}:{I.py_str(exc)[:80]}", list(ctx.pc), z3.BoolVal(False), relaxed))
     # stub preconditions and nested obligations recorded by the interpreter
     for (name, kind, hyps, goal, meta) in ctx.obligations:
         records.append((kind, name, hyps, goal))
